@@ -24,7 +24,7 @@ Walk == /\ phase = "walk"
 \* a total order on names for the intended (deterministic) design: the order of a fixed enumeration
 CONSTANTS NameOrder      \* sequence of all names that may occur, in processing order
 Pos(n) == CHOOSE i \in 1..Len(NameOrder) : NameOrder[i] = n
-MinName(S) == CHOOSE n \in S : \A m \in S : Pos(n) <= Pos(m)
+MinName(X) == CHOOSE n \in X : \A m \in X : Pos(n) <= Pos(m)
 PickFile(n) ==
   /\ phase = "load" /\ n \in todo
   /\ DevK.MapOrder \/ n = MinName(todo)
